@@ -533,6 +533,19 @@ class Program:
                 c = c.outer
             r = self.resolve_name(m, e.id, cls)
             return self._fold_entity(r, depth)
+        if isinstance(e, ast.Attribute) and e.attr in ("size", "format", "start", "stop", "step"):
+            try:
+                base = F(e.value)
+            except NotConst:
+                base = None
+            if isinstance(base, tuple) and len(base) == 2 and base[0] == "struct.Struct" and e.attr in ("size", "format"):
+                import struct as _st
+                try:
+                    return _st.calcsize(base[1]) if e.attr == "size" else base[1]
+                except _st.error:
+                    raise NotConst("bad struct format")
+            if isinstance(base, slice) and e.attr in ("start", "stop", "step"):
+                return getattr(base, e.attr)
         if isinstance(e, ast.Attribute):
             if isinstance(e.value, ast.Name) and e.value.id in ("self", "cls") and cls is not None and not (local and e.value.id in local):
                 # self.X / cls.X for a class-level constant X that no code in the package ever stores through an attribute
@@ -626,6 +639,10 @@ class Program:
                     if isinstance(recv, int) and fn.attr == "to_bytes":
                         args = [F(a) for a in e.args]
                         return recv.to_bytes(*args)
+            if fname == "struct.Struct" and len(e.args) == 1 and not e.keywords:
+                a = F(e.args[0])
+                if isinstance(a, str):
+                    return ("struct.Struct", a)          # a precompiled format (hashable constant)
             if fname == "slice" and 1 <= len(e.args) <= 3 and not e.keywords:
                 a = [F(x) for x in e.args]
                 if all(x is None or (isinstance(x, int) and not isinstance(x, bool)) for x in a):
